@@ -25,7 +25,7 @@ def history(rng, base, others, n):
         elif r < 0.70:
             d = rng.choice(["-", "-", hx(doc), hx(doc), hx(bytes([doc[0]]) + rng.randbytes(len(doc) - 1)), hx(bytes([4]) + rng.randbytes(48))])
             lv = rng.choice([0, 0, 0, 1, lc, lc + 1, 3, 17, 255, 256, 1 << 32])
-            ops.append("%s:%s:%s:%d" % (rng.choice(["v", "v", "v", "a"]), rng.choice(POLICIES), d, lv))
+            ops.append("%s:%s:%s:%d" % (rng.choice(["v", "v", "v", "a", "w", "w"]), rng.choice(POLICIES), d, lv))
         elif r < 0.74:
             ops.append(rng.choice(["x", "xt:%d" % rng.randrange(1400000000, 1600000000)]))
         elif r < 0.80:
@@ -62,7 +62,8 @@ def gen(rng, tier):
             if l.kind == "h":
                 d = bytearray(l.data); d[-1] ^= 1; l.data = bytes(d)                               # root changes: INT-03 / anchors
         else:
-            base.extra = tlv(0x1f0, rng.randbytes(5), nc=1, fwd=rng.random() < 0.5)            # an unknown non-critical element is kept too
+            # an unknown non-critical element is kept too — sizes around the one / two octet length forms
+            base.extra = tlv(rng.choice([0x1f0, 0x0f]), rng.randbytes(rng.choice([0, 1, 5, 254, 255, 255, 256, 1000])), nc=1, fwd=rng.random() < 0.5)
         raw = base.enc()
         ops = ["s", "c"] + history(rng, base, others, rng.randrange(4, 30 if not big else 60)) + ["s", "c"]
         # prepend a local chain: a signature over the output of chain 0, and chain 0 as the chain to prepend
@@ -74,6 +75,12 @@ def gen(rng, tier):
             ops2 = ["s", "b:" + hx(first.enc()), "s", "v:internal:%s:0" % hx(upper.chains[0].input_hash), "b:" + hx(base.chains[-1].enc()), "s", "c",
                     "r:%d" % rng.choice([0, 1, 2]), "s"]
             yield "h %s %s" % (hx(upper.enc()), " ".join(ops2))
+    # elements whose payload sits at the boundary between the one- and two-octet length forms
+    for tag in (0x0f, 0x1f0):
+        for n in (0, 254, 255, 256, 257):
+            base = S.build(rng, anchor=None)
+            base.extra = tlv(tag, rng.randbytes(n), nc=1, fwd=rng.random() < 0.5)
+            yield "h %s s c v:internal:-:0 s c" % hx(base.enc())
     # same level asked twice, different levels alternating: the memo must never answer for the wrong start level
     for _ in range(10 if not big else 100):
         base = S.build(rng, nchains=rng.choice([1, 2, 3]), first_lc=rng.choice([3, 7, 20]), anchor=None)
